@@ -31,7 +31,7 @@ fn tiny_case(rng: &mut Rng, pkg: Pkg, comp: Comp) -> ContCase {
     // one store with variants + an indexed/plain value store, two indexes
     let items = vec![
         Item { len: 40, ent: Ent::High, hint: Hint::No, src: Src::Mem, dup_of: None },
-        Item { len: 300, ent: Ent::Low4, hint: Hint::Yes, src: Src::Mem, dup_of: None },
+        Item { len: 300, ent: Ent::Text, hint: Hint::Yes, src: Src::Mem, dup_of: None },
         Item { len: 0, ent: Ent::Low4, hint: Hint::No, src: Src::Mem, dup_of: None },
         Item { len: 120, ent: Ent::Mid6, hint: Hint::Yes, src: Src::Mem, dup_of: None },
     ];
